@@ -39,7 +39,7 @@ static int cfgv_validcb(cfg_t *cfg, cfg_opt_t *opt) { cfgv_log(EV_VALID, opt, cf
 static int *p_state, *p_ignore, *p_num_values; static char **p_comment, **p_opttitle; static cfg_opt_t **p_opt, *p_funcopt; static cfg_value_t **p_val;
 static int g_depth, g_lex_calls, g_outer_level;
 static sp_in_t g_si; static sp_out_t g_so;
-static int g_diag0;
+static int g_diag0, g_line0;
 
 /* Inv: the loop invariant of the token loop, over the locals and the ghost state */
 int in_tokens;   /* ghost: tokens read so far (input-size assumption: < 2^30 tokens in one text) */
@@ -159,6 +159,14 @@ static void check_continue(void)
 	CHECK("C15,C07", g_so.comment_after == 0 ? *p_comment == NULL : g_so.comment_after == 1 ? *p_comment == h_comment : (*p_comment != NULL && *p_comment != in_text && *p_comment != h_comment && strcmp(*p_comment, in_text) == 0),
 	      "the pending annotation is kept, consumed or replaced by a private copy of the comment text as the language prescribes");
 	check_actions(); check_diags(); check_flags();
+	{
+		/* position tracking (C06): the parser proper never moves the line counter (the scanner does); after a section body
+		 * the enclosing context continues at the line the body ended on */
+		_Bool body = 0;
+#define EVBODY(i) ((i) < CFGV_MAXEV && (i) < g_nev && g_ev[(i) < CFGV_MAXEV ? (i) : 0].kind == EV_RECURSE && g_ev[(i) < CFGV_MAXEV ? (i) : 0].c == -1)
+		body = EVBODY(0) || EVBODY(1) || EVBODY(2) || EVBODY(3) || EVBODY(4) || EVBODY(5) || EVBODY(6) || EVBODY(7);
+		CHECK("C06", h_cfg.line == (body ? h_sec.line : g_line0), "the context's line number moves only with the scanner, and continues after a section body at the line the body ended on");
+	}
 	CHECK("C07,C02,C12,C15", *p_comment == NULL || __CPROVER_r_ok(*p_comment, 1), "a pending annotation is a live block (never a released one)");
 	CHECK("C01,C02,C07", inv(*p_state, *p_opt, *p_comment, *p_opttitle, *p_ignore, *p_num_values, p_funcopt), "INV: the loop invariant holds again at the loop head");
 }
@@ -241,6 +249,7 @@ static void setup(void)
 	in_cfgflags = nondet_int();
 	h_cfg.name = "root"; h_cfg.flags = in_cfgflags; h_cfg.errfunc = cfgv_errfunc; h_cfg.line = nondet_int(); h_cfg.path = (cfg_searchpath_t *)&h_added;
 	__CPROVER_assume(h_cfg.line >= 0 && h_cfg.line < 1000000);
+	g_line0 = h_cfg.line;
 	in_curtype = nondet_int(); in_curflags = nondet_int(); in_foundtype = nondet_int(); in_foundflags = nondet_int();
 	__CPROVER_assume(in_curtype >= CFGT_INT && in_curtype <= CFGT_PTR && in_foundtype >= CFGT_INT && in_foundtype <= CFGT_PTR);
 	h_cur.name = "cur"; h_cur.type = in_curtype; h_cur.flags = in_curflags;
